@@ -8,11 +8,14 @@
 //     (Info()&IsConstType != 0) — this table is read from the go/types package the generators
 //     are compiled against (an oracle, not the repository);
 //   - `gen_render`: the expression by which gencommon.(*ImportHandler).ExtractTypeRef renders a
-//     *types.Basic — the `return` of the type switch's `case *types.Basic:` clause when there is
-//     one, else of its `default:` clause — read from gencommon/imports.go with go/parser and
-//     translated into the tiny expression language of GenBuildModel.v (RName, RDefaultName,
-//     RTrimPrefix).  Anything the translator does not recognise becomes `RUnknown "<source>"`,
-//     for which the Coq theorem cannot be proved (the check then reports the broken tie).
+//     *types.Basic — what the clause of the type switch listing `*types.Basic` returns when there
+//     is one (alone or next to other types), else its `default:` clause, else the code after the
+//     switch — read from package gencommon with go/parser and translated into the tiny expression
+//     language of GenBuildModel.v (RName, RDefaultName, RTrimPrefix).  The clause may define
+//     locals before its `return` (they are substituted) and may call a one-parameter helper
+//     function or method of the package with the switch variable (its body is translated in its
+//     place).  Anything the translator does not recognise becomes `RUnknown "<source>"`, for
+//     which the Coq theorem cannot be proved (the check then reports the broken tie).
 //
 // Standard library only.
 //
@@ -54,73 +57,196 @@ func src(fset *token.FileSet, n ast.Node) string {
 	return b.String()
 }
 
-// xlate translates the Go expression rendering the switch variable `tv` into the rexpr IR.
-func xlate(fset *token.FileSet, e ast.Expr, tv string) string {
-	unknown := func() string { return "(RUnknown " + q(src(fset, e)) + ")" }
+// translator state: the package's functions (helpers may be called), and the substitution of
+// local variables by the expressions assigned to them.
+type xl struct {
+	fset  *token.FileSet
+	funcs map[string]*ast.FuncDecl // unexported helpers of gencommon, by name (functions and methods)
+	depth int
+}
+
+func (x *xl) unknown(e ast.Node) string { return "(RUnknown " + q(src(x.fset, e)) + ")" }
+
+// isVar: the expression is the variable `tv` (after substitution of locals), possibly asserted
+// or converted to a type that does not change what String() prints: t, (t), t.(*types.Basic)
+func isVar(e ast.Expr, tv string, env map[string]ast.Expr) bool {
+	switch v := e.(type) {
+	case *ast.ParenExpr:
+		return isVar(v.X, tv, env)
+	case *ast.TypeAssertExpr:
+		return isVar(v.X, tv, env)
+	case *ast.Ident:
+		if v.Name == tv {
+			return true
+		}
+		if b, ok := env[v.Name]; ok {
+			return isVar(b, tv, env)
+		}
+	}
+	return false
+}
+
+// expr translates the Go expression that renders the switch variable `tv` into the rexpr IR.
+// env: locals -> their defining expressions (already in terms of tv).
+func (x *xl) expr(e ast.Expr, tv string, env map[string]ast.Expr) string {
+	switch v := e.(type) {
+	case *ast.ParenExpr:
+		return x.expr(v.X, tv, env)
+	case *ast.Ident:
+		if b, ok := env[v.Name]; ok {
+			return x.expr(b, tv, env)
+		}
+		return x.unknown(e)
+	}
 	call, ok := e.(*ast.CallExpr)
 	if !ok {
-		return unknown()
+		return x.unknown(e)
+	}
+	// helper(t) / recv.helper(t): a function of the package with one parameter fed with tv
+	if name := calleeName(call.Fun); name != "" && len(call.Args) == 1 && isVar(call.Args[0], tv, env) {
+		if fd, ok := x.funcs[name]; ok && x.depth < 4 && fd.Type.Params != nil && len(fd.Type.Params.List) == 1 &&
+			len(fd.Type.Params.List[0].Names) == 1 {
+			x.depth++
+			defer func() { x.depth-- }()
+			return x.body(fd.Body.List, fd.Type.Params.List[0].Names[0].Name)
+		}
 	}
 	sel, ok := call.Fun.(*ast.SelectorExpr)
 	if !ok {
-		return unknown()
+		return x.unknown(e)
 	}
 	// X.String()
 	if sel.Sel.Name == "String" && len(call.Args) == 0 {
-		if id, ok := sel.X.(*ast.Ident); ok && id.Name == tv {
+		if isVar(sel.X, tv, env) {
 			return "RName"
 		}
-		// types.Default(t).String()
-		if c2, ok := sel.X.(*ast.CallExpr); ok && len(c2.Args) == 1 {
+		// types.Default(t).String(), also through a local: d := types.Default(t); d.String()
+		inner := sel.X
+		for {
+			if id, ok := inner.(*ast.Ident); ok {
+				if b, ok := env[id.Name]; ok {
+					inner = b
+					continue
+				}
+			}
+			if p, ok := inner.(*ast.ParenExpr); ok {
+				inner = p.X
+				continue
+			}
+			break
+		}
+		if c2, ok := inner.(*ast.CallExpr); ok && len(c2.Args) == 1 {
 			if s2, ok := c2.Fun.(*ast.SelectorExpr); ok && s2.Sel.Name == "Default" {
-				if p, ok := s2.X.(*ast.Ident); ok && p.Name == "types" {
-					if id, ok := c2.Args[0].(*ast.Ident); ok && id.Name == tv {
-						return "RDefaultName"
-					}
+				if p, ok := s2.X.(*ast.Ident); ok && p.Name == "types" && isVar(c2.Args[0], tv, env) {
+					return "RDefaultName"
 				}
 			}
 		}
-		return unknown()
+		return x.unknown(e)
 	}
 	// strings.TrimPrefix(E, "lit")
 	if p, ok := sel.X.(*ast.Ident); ok && p.Name == "strings" && sel.Sel.Name == "TrimPrefix" && len(call.Args) == 2 {
 		if lit, ok := call.Args[1].(*ast.BasicLit); ok && lit.Kind == token.STRING {
 			s, err := strconv.Unquote(lit.Value)
 			if err == nil {
-				return "(RTrimPrefix " + q(s) + " " + xlate(fset, call.Args[0], tv) + ")"
+				return "(RTrimPrefix " + q(s) + " " + x.expr(call.Args[0], tv, env) + ")"
 			}
 		}
 	}
-	return unknown()
+	return x.unknown(e)
+}
+
+func calleeName(f ast.Expr) string {
+	switch v := f.(type) {
+	case *ast.Ident:
+		return v.Name
+	case *ast.SelectorExpr:
+		if id, ok := v.X.(*ast.Ident); ok && id.Name != "types" && id.Name != "strings" && id.Name != "fmt" {
+			return v.Sel.Name
+		}
+	}
+	return ""
+}
+
+// body: zero or more single-variable definitions (`x := e`, `var x = e`) followed by one
+// `return e`; the locals are substituted into the returned expression.
+func (x *xl) body(stmts []ast.Stmt, tv string) string {
+	env := map[string]ast.Expr{}
+	for i, st := range stmts {
+		switch v := st.(type) {
+		case *ast.AssignStmt:
+			if v.Tok == token.DEFINE && len(v.Lhs) == 1 && len(v.Rhs) == 1 {
+				if id, ok := v.Lhs[0].(*ast.Ident); ok {
+					env[id.Name] = v.Rhs[0]
+					continue
+				}
+			}
+		case *ast.DeclStmt:
+			if gd, ok := v.Decl.(*ast.GenDecl); ok && gd.Tok == token.VAR && len(gd.Specs) == 1 {
+				if vs, ok := gd.Specs[0].(*ast.ValueSpec); ok && len(vs.Names) == 1 && len(vs.Values) == 1 {
+					env[vs.Names[0].Name] = vs.Values[0]
+					continue
+				}
+			}
+		case *ast.ReturnStmt:
+			if i == len(stmts)-1 && len(v.Results) == 1 {
+				return x.expr(v.Results[0], tv, env)
+			}
+		}
+		return x.unknown(st)
+	}
+	return "(RUnknown \"no return\")"
 }
 
 func renderExpr(repo string) (string, string, error) {
 	fset := token.NewFileSet()
-	path := filepath.Join(repo, "gencommon", "imports.go")
-	f, err := parser.ParseFile(fset, path, nil, 0)
+	dir := filepath.Join(repo, "gencommon")
+	pkgs, err := parser.ParseDir(fset, dir, func(fi os.FileInfo) bool { return !strings.HasSuffix(fi.Name(), "_test.go") }, 0)
 	if err != nil {
 		return "", "", err
 	}
-	for _, d := range f.Decls {
-		fd, ok := d.(*ast.FuncDecl)
-		if !ok || fd.Name.Name != "ExtractTypeRef" || fd.Body == nil {
-			continue
-		}
-		var ts *ast.TypeSwitchStmt
-		ast.Inspect(fd.Body, func(n ast.Node) bool {
-			if x, ok := n.(*ast.TypeSwitchStmt); ok && ts == nil {
-				ts = x
-				return false
+	x := &xl{fset: fset, funcs: map[string]*ast.FuncDecl{}}
+	var target *ast.FuncDecl
+	for _, pk := range pkgs {
+		for _, f := range pk.Files {
+			for _, d := range f.Decls {
+				fd, ok := d.(*ast.FuncDecl)
+				if !ok || fd.Body == nil {
+					continue
+				}
+				if fd.Name.Name == "ExtractTypeRef" {
+					target = fd
+				} else {
+					x.funcs[fd.Name.Name] = fd
+				}
 			}
-			return true
-		})
+		}
+	}
+	if target == nil {
+		return "", "", fmt.Errorf("ExtractTypeRef not found in %s", dir)
+	}
+	fd := target
+	{
+		var ts *ast.TypeSwitchStmt
+		var after []ast.Stmt // the statements that follow the switch (reached when no clause matches)
+		for i, st := range fd.Body.List {
+			if sw, ok := st.(*ast.TypeSwitchStmt); ok && ts == nil {
+				ts = sw
+				after = fd.Body.List[i+1:]
+			}
+		}
 		if ts == nil {
 			return "(RUnknown \"no type switch\")", "", nil
 		}
-		tv := ""
+		tv, operand := "", ""
 		if as, ok := ts.Assign.(*ast.AssignStmt); ok && len(as.Lhs) == 1 {
 			if id, ok := as.Lhs[0].(*ast.Ident); ok {
 				tv = id.Name
+			}
+			if ta, ok := as.Rhs[0].(*ast.TypeAssertExpr); ok {
+				if id, ok := ta.X.(*ast.Ident); ok {
+					operand = id.Name
+				}
 			}
 		}
 		var basic, deflt *ast.CaseClause
@@ -130,28 +256,23 @@ func renderExpr(repo string) (string, string, error) {
 				deflt = cc
 			}
 			for _, t := range cc.List {
-				if src(fset, t) == "*types.Basic" && len(cc.List) == 1 {
+				if src(fset, t) == "*types.Basic" {
 					basic = cc
 				}
 			}
 		}
-		cc, which := deflt, "default"
-		if basic != nil {
-			cc, which = basic, "case *types.Basic"
+		switch {
+		case basic != nil:
+			return x.body(basic.Body, tv), "case *types.Basic", nil
+		case deflt != nil:
+			return x.body(deflt.Body, tv), "default", nil
+		case len(after) > 0:
+			// no clause for basic types: the code after the switch renders them, in terms of the
+			// switch operand
+			return x.body(after, operand), "after the switch", nil
 		}
-		if cc == nil {
-			return "(RUnknown \"no clause for basic types\")", which, nil
-		}
-		if len(cc.Body) != 1 {
-			return "(RUnknown " + q("clause with "+strconv.Itoa(len(cc.Body))+" statements") + ")", which, nil
-		}
-		rs, ok := cc.Body[0].(*ast.ReturnStmt)
-		if !ok || len(rs.Results) != 1 {
-			return "(RUnknown " + q(src(fset, cc.Body[0])) + ")", which, nil
-		}
-		return xlate(fset, rs.Results[0], tv), which, nil
+		return "(RUnknown \"no clause for basic types\")", "", nil
 	}
-	return "", "", fmt.Errorf("ExtractTypeRef not found in %s", path)
 }
 
 func main() {
